@@ -112,6 +112,7 @@ def _parse_components(pid, tier, seed, mode="comp"):
     res.violations += harness_crash_violations(h, pid)
     res.add_stats(vlib.merge_stats(h["stats"]))
     res.violations += validate_stream(res, "Trace_Parse", out, "plog", pid)
+    if tier == "thorough" and pid == "C02": add_suite(res, pid, out)
     return res
 
 def C02(tier, seed):
@@ -190,6 +191,7 @@ def _algebra(pid, tier, seed, modes, model_note, also=()):
         res.violations += [v for v in h["violations"] if v.get("prop") == pid]
         res.add_stats(vlib.merge_stats(h["stats"]))
         res.violations += validate_stream(res, "Trace_Algebra", out, mode, pid, also=also)
+    if tier == "thorough": add_suite(res, pid, out, also=also)
     res.assumptions = ALG_ASSUME
     return res
 
@@ -224,6 +226,7 @@ def C10(tier, seed):
     res.violations += harness_crash_violations(h, "C10")
     res.add_stats(vlib.merge_stats(h["stats"]))
     res.violations += validate_stream(res, "Trace_Algebra", out, "removebase", "C10")
+    if tier == "thorough": add_suite(res, "C10", out)
     res.coverage["rule"] = ("all ordered pairs (source, base) of a universe of absolute URIs: 2 schemes x 7 (thorough 17) authorities incl. user info / port / empty host / IPv4 / IPv6 / IPvFuture differing in one part x 15 (thorough 27) paths with every overlap pattern "
         "(prefix, equal, trailing empty segments, differing in the last segment only, ':' in the first segment, empty first segment, rootless, dot segments) x query on either side, both modes, both widths, default and recording manager; "
         "plus random paths sharing prefixes of random length and non-absolute operands. TLC evaluates the relation RelativizeOK on the projected real (source, base, reference): resolves back (specification's resolution), omission of scheme/authority, domain-root form, stability; "
@@ -338,6 +341,43 @@ def C19(tier, seed):
         "TLC (Trace_Pair) requires the two records to be identical apart from the width tag and the allocator logs. non-trivial = non-empty input; distinct by case")
     res.assumptions = ["TLC/SANY, CommunityModules", "that each variant is also what the specification says is decided by the property-specific checks on the same events (both widths alternate there)", "guard pages / ASan make an over-run an event"]
     return res
+
+# ------------------------------------------------------------------ the repository's own suite, traced (growth: used by the thorough tiers)
+def suite_trace(out):
+    """Build the repository's test runner, run it with the LD_PRELOAD tracer, return the list of trace shards (events of the suite's own executions)."""
+    d = os.path.join(out, "suite"); shutil.rmtree(d, ignore_errors=True); os.makedirs(d)
+    # the repository's own runner compiles the library sources into itself, which no tracer can interpose; the same test sources are
+    # therefore linked against the library as a shared object (variant `shared`, built from the same tree)
+    sdir = os.path.dirname(vlib.build("shared"))
+    tests = " ".join(sorted(glob.glob(os.path.join(vlib.REPO, "test", "*.cpp"))))
+    r = vlib.sh("g++ -std=c++14 -O0 -I%s/include -I%s -I%s/src -I/root/miniconda/include %s -o %s/testrunner -L%s -luriparser -L/root/miniconda/lib -lgtest -lgtest_main -lpthread -Wl,-rpath,%s -Wl,-rpath,/root/miniconda/lib"
+                % (vlib.REPO, sdir, vlib.REPO, tests, d, sdir, sdir))
+    if r.returncode != 0 or not os.path.exists(d + "/testrunner"): raise Infra("could not build the repository's tests against the shared library:\n" + r.stdout[-2000:])
+    r = vlib.sh("g++ -std=c++17 -O1 -g -shared -fPIC -I%s/include -o %s/libvhshim.so %s/harness/shim/shim.cpp -ldl" % (vlib.REPO, d, VERIF))
+    if r.returncode != 0: raise Infra("could not build the tracer:\n" + r.stdout[-2000:])
+    trace = d + "/suite.ndjson"
+    env = dict(os.environ, LD_PRELOAD=d + "/libvhshim.so", VH_SHIM_OUT=trace)
+    r = vlib.sh([d + "/testrunner"], env=env, timeout=600)
+    if not os.path.exists(trace): raise Infra("the traced suite wrote no events:\n" + r.stdout[-1500:])
+    lines = [l for l in open(trace) if l.strip()]
+    shards = []
+    for i in range(8):
+        p = os.path.join(d, "suite.%d.ndjson" % i); open(p, "w").writelines(lines[i::8]); shards.append(p)
+    return shards, len(lines), ("FAILED" not in r.stdout)
+
+def add_suite(res, pid, out, also=()):
+    shards, n, passed = suite_trace(out)
+    cnt, rejects = vlib.validate("Trace_Suite", shards)
+    mine = []
+    for r in rejects:
+        fails = [f for f in r["fails"] if f["p"] == pid or f["p"] in also]
+        if fails:
+            devs = set(f.get("dev", "") for f in fails)
+            mine.append(dict(prop=pid, why="(repository's own test suite, traced) " + "; ".join(f["why"] for f in fails), dev=devs.pop() if len(devs) == 1 else "", event=r["ev"], trace=r["trace"], line=r["line"], spec="Trace_Suite"))
+    res.violations += mine
+    res.coverage["suite_events_validated"] = cnt
+    res.coverage["events_validated"] = res.coverage.get("events_validated", 0) + cnt
+    res.coverage["traces_validated_against_impl"] = res.coverage.get("traces_validated_against_impl", 0) + cnt - len(rejects)
 
 # ------------------------------------------------------------------ C20
 def writable_symbol_audit(so):
